@@ -32,7 +32,7 @@ def is_telegram_message_id (value : Str) : Bool := searchB TELEGRAM_MESSAGE_ID_R
 /-- telegram.py:29-45 -/
 def is_telegram_url (url : Str) : Bool := hostMatches TELEGRAM_DOMAINS_RE url
 
-/-- telegram.py:104-121: `path[0] == "s"` -/
+/-- telegram.py:104-122: `path[0] == "s"` -/
 def sRoute (path : List Str) : Except Err (Option Record) :=
   if path.length < 2 then pure none
   else do
@@ -42,9 +42,13 @@ def sRoute (path : List Str) : Except Err (Option Record) :=
         let p2 ← getIdx path 2
         pure (some (.group p2))
       else pure none
-    else if path.length = 3 then do
-      let p2 ← getIdx path 2
-      if is_telegram_message_id p2 then pure (some (.message p1 p2)) else pure none
+    else if path.length = 3 then
+      -- `elif len(path) == 3 and path[1] and is_telegram_message_id(path[2])`; when it fails
+      -- with three segments the next test `len(path) == 2` fails too
+      if p1 ≠ [] then do
+        let p2 ← getIdx path 2
+        if is_telegram_message_id p2 then pure (some (.message p1 p2)) else pure none
+      else pure none
     else if path.length = 2 then pure (some (.channel p1))
     else pure none
 
